@@ -12,11 +12,14 @@ F = {
  "C16-adder-mixed-sign": "Adder (po2 x po2) sizes the output exponent field as max(bits)+1 including the sign bits, which is too small when one operand is signed and the other is not",
 }
 ent = {k: [] for k in F}
-def mvs(k): return ["none", "le1", "gt1"] if k in PO else [None]
+def mvs(k): return ["none", "le1", "gt1", "v3", "v6"] if k in PO else [None]
 for wk in Q.KINDS:
   for xk in Q.KINDS:
     for wmv in mvs(wk):
       for xmv in mvs(xk):
+        if ((wmv or "").startswith("v") and xmv not in (None, "none")) or \
+           ((xmv or "").startswith("v") and wmv not in (None, "none")):
+          continue
         name = "%s%s_x_%s%s" % (wk, "" if wmv is None else "-mv" + wmv, xk, "" if xmv is None else "-mv" + xmv)
         ob = "C16/%s/%s/fits_prod" % (c16.MF, name)
         def add(fid, ex): ent[fid].append({"obligation": ob, "exclude": ex})
